@@ -341,7 +341,7 @@ func (c *c15ctx) genSources(h *c15hist, r *vkit.RNG) []c15ann {
 		perSrc = append(perSrc, seq)
 	}
 	// store-write script
-	kinds := []string{"fsq4", "fsods"}
+	kinds := []string{"fsq4", "fsods", "ioods"} // ("q4.create" runs on a goroutine of its own: not routable by goroutine id)
 	if h.cfg.Cache == 0 || c15hookWithCache {
 		kinds = append(kinds, "hook", "hook")
 	}
